@@ -45,9 +45,16 @@ pub struct RunOut {
 pub fn run_cli(args: &[String]) -> Result<RunOut, String> {
     use std::io::Read;
     use std::process::Stdio;
-    let mut child = Command::new(cli_bin())
-        .args(args)
-        .env_remove("RUST_LOG")
+    // an argument of the form ENV:NAME=VALUE sets an environment variable instead
+    let (envs, args): (Vec<&String>, Vec<&String>) = args.iter().partition(|a| a.starts_with("ENV:"));
+    let mut cmd = Command::new(cli_bin());
+    cmd.args(args).env_remove("RUST_LOG");
+    for e in envs {
+        if let Some((k, v)) = e[4..].split_once('=') {
+            cmd.env(k, v);
+        }
+    }
+    let mut child = cmd
         .env("RUST_BACKTRACE", "0")
         .stdin(Stdio::null())
         .stdout(Stdio::piped())
@@ -320,9 +327,10 @@ fn c15_check(c: &CliCase, st: &mut Stats) -> CheckResult {
             3 => args.push("-vv".into()),
             4 => args.extend(["--rust_log".to_string(), "debug".to_string()]),
             5 => args.push("-vvv".into()),
+            6 => args.push("ENV:RUST_LOG=trace".into()),
             _ => {}
         }
-        let cmdline = format!("adf-bdd {}", args[1..].join(" "));
+        let cmdline = format!("adf-bdd {}", args[1..].join(" ")).replace("ENV:", "env ");
         let run = match run_cli(&args) {
             Ok(r) => r,
             Err(e) => {
@@ -672,7 +680,12 @@ pub fn cli_reject_check(c: &MutCase, st: &mut Stats) -> CheckResult {
     } else {
         None
     };
-    let mutant = match mutant {
+    let mutant = match (&c.m, mutant) {
+        (Mutation::Garbage(g), None) if g % 16 == 1 => {
+            st.label("malformed:empty-or-blank-file");
+            ["", " ", "\n", "\n\n  \t"][(*g as usize / 16) % 4].to_string()
+        }
+        (_, m) => match m {
         Some(m) => m,
         None => {
             let Some((mutant, _)) = mutate(&text, &c.m) else {
@@ -684,6 +697,7 @@ pub fn cli_reject_check(c: &MutCase, st: &mut Stats) -> CheckResult {
             }
             mutant
         }
+        },
     };
     let path = write_input(&mutant)?;
     let mut res = Ok(());
